@@ -77,8 +77,29 @@ class History(object):
     def prelude(self, spec):
         """fixed (non-symbolic) requests that build a state template before the free history"""
         E = self.E
+
+        def mark(x):
+            # pool members named by the template are no longer interchangeable with unused ones
+            if isinstance(x, int) and not isinstance(x, bool):
+                if 0 <= x < len(self.pool):
+                    self.st.setdefault("used_set", set()).add(x)
+            elif isinstance(x, (list, tuple)):
+                for y in x:
+                    mark(y)
         for item in spec or []:
             kind = item[0]
+            if kind in ("page", "batch"):
+                mark(item[1])
+                if kind == "batch":
+                    mark(item[2])
+            elif kind == "links":
+                mark(item[1])
+            elif kind in ("we",):
+                mark([i for i, k in item[1]])
+            elif kind == "rule":
+                mark(item[1][0])
+            elif kind == "attach":
+                mark(item[1][0])
             self.ref.created = []
             if kind == "page":
                 a = self.pool[item[1]]
@@ -120,6 +141,8 @@ class History(object):
                 self.install_model(a, rep)
             elif kind == "clear":
                 self.op_clear("prelude")
+            elif kind == "reopen":
+                self.op_reopen("prelude")
             elif kind == "attach":
                 # add_prefix_to_webentity with an id of the caller's choosing (not an id the index issued)
                 (i, k), weid = item[1], item[2]
